@@ -68,22 +68,6 @@ Proof.
     + rewrite ff_absent; [apply PM.gempty|]. intros v Hv. apply PM.elements_complete in Hv. congruence.
 Qed.
 
-(* ---------- the registers to save, for an integer context ---------- *)
-Lemma is_int_binding_inv b : is_int_binding b = true -> exists v, b = mkb v Ext I64.
-Proof. destruct b as [v ch t]. unfold is_int_binding; cbn. destruct ch, t; try discriminate. eauto. Qed.
-Lemma csri_int c : ctx_int c = true ->
-  caller_save_registers_info c = (N.max (2 * N.of_nat (List.length c) + 4) 12, firstn (List.length c) [5; 7; 9; 11]%N).
-Proof.
-  intros H. unfold caller_save_registers_info.
-  change CALLER_SAVE_LAST with 11%N. change CALLER_SAVE_FIRST with 4%N. change RESERVED with 4%N.
-  change (N.to_nat ((11 + 1 - 4) / 2)) with 4%nat. change (11 + 1)%N with 12%N.
-  f_equal.
-  destruct c as [|b0 [|b1 [|b2 [|b3 rest]]]]; cbn [firstn List.length]; rewrite ?firstn_nil; unfold ctx_int in H; cbn [forallb] in H;
-  repeat match goal with H : _ && _ = true |- _ => apply andb_true_iff in H as [? H] end;
-  repeat match goal with H : is_int_binding ?b = true |- _ => apply is_int_binding_inv in H as (? & ->) end;
-  reflexivity.
-Qed.
-
 (* ---------- raw stack words, push / pop / call as state transformers ---------- *)
 Definition kset (s : xstate) (a : Z) (v : option Z) : xstate :=
   {| regs := regs s; heap := heap s;
@@ -181,32 +165,6 @@ Ltac rdk :=
     | rewrite heap_rset | rewrite heap_set_flags | rewrite heap_kset | rewrite heap_oset | rewrite heap_havoc
     | rewrite hw_rset | rewrite hw_set_flags | rewrite hw_kset | rewrite hw_oset | rewrite hw_havoc ].
 Ltac stk := unfold stk_ok, STACK_LIMIT, STACK_TOP; zlia.
-Ltac xstep im :=
-  lazymatch goal with
-  | |- match step im (MOV ?a ?b) ?s with _ => _ end = _ => rewrite (step_MOV im s a b); cbv iota beta; rdk
-  | |- match step im (PUSH ?a) ?s with _ => _ end = _ =>
-      let H := fresh "H" in
-      eassert (H : rget s 0%N = Some _) by (rdk; first [reflexivity | eassumption]);
-      rewrite (step_PUSH im s a _ H) by stk; clear H; cbv iota beta; rdk
-  | |- match step im (POP ?a) ?s with _ => _ end = _ =>
-      let H := fresh "H" in
-      eassert (H : rget s 0%N = Some _) by (rdk; first [reflexivity | eassumption]);
-      rewrite (step_POP im s a _ H) by stk; clear H; cbv iota beta; rdk
-  | |- match step im (SUBI 0%N 8) ?s with _ => _ end = _ =>
-      let H := fresh "H" in
-      eassert (H : rget s 0%N = Some _) by (rdk; first [reflexivity | eassumption]);
-      rewrite (step_SUBI8 im s _ H) by (unfold STACK_TOP; lia); clear H; cbv iota beta; rdk
-  | |- match step im (ADDI 0%N 8) ?s with _ => _ end = _ =>
-      let H := fresh "H" in
-      eassert (H : rget s 0%N = Some _) by (rdk; first [reflexivity | eassumption]);
-      rewrite (step_ADDI8 im s _ H) by (unfold STACK_TOP; lia); clear H; cbv iota beta; rdk
-  | |- match step im (CALL (print_name ?nl)) ?s with _ => _ end = _ =>
-      let H := fresh "H" in let V := fresh "V" in
-      eassert (H : rget s 0%N = Some _) by (rdk; first [reflexivity | eassumption]);
-      eassert (V : rget s 7%N = Some _) by (rdk; eassumption);
-      rewrite (step_CALL im s nl _ _ H) by (first [zlia | exact V]); clear H V; cbv iota beta; rdk
-  end.
-
 (* ---------- lists of register moves, pushes and pops as state transformers ---------- *)
 Fixpoint movs (ps : list (N * N)) (s : xstate) : xstate :=
   match ps with [] => s | p :: ps => movs ps (rset s (fst p) (rget s (snd p))) end.
